@@ -461,7 +461,7 @@ func genRound(t *rapid.T, kind string) Round {
 	var c Round
 	np := genCount(t, "pods", maxPods, podEdges)
 	nc := genCount(t, "ctrs", maxCtrs, ctrEdges)
-	mode := rapid.SampledFrom([]string{"fill", "fill", "fill", "fill", "fill", "fill", "floor", "floor", "free", "free", "small"}).Draw(t, "mode")
+	mode := rapid.SampledFrom([]string{"fill", "fill", "fill", "fill", "fill", "fill", "floor", "floor", "headtail", "headtail", "free", "free", "small"}).Draw(t, "mode")
 	switch kind {
 	case "abort":
 		mode = "abortfill"
@@ -476,6 +476,8 @@ func genRound(t *rapid.T, kind string) Round {
 	switch mode {
 	case "tail":
 		c.Pods, c.Ctrs = genTail(t)
+	case "headtail":
+		c.Pods, c.Ctrs = genHeadTail(t)
 	case "abortfill": // class (b), at least three messages: 32+ equal objects, 9..24 MB
 		total := rapid.IntRange(9<<20, 24<<20).Draw(t, "total")
 		light := genList(t, "light", rapid.IntRange(0, 20).Draw(t, "light-n"), 20, rapid.IntRange(0, 100<<10).Draw(t, "light-bytes"), lightD)
@@ -721,23 +723,26 @@ func diffUpdates(want, got []*api.ContainerUpdate) string {
 // run + oracle
 
 type roundHistory struct {
-	Round     int     `json:"round"`
-	Shape     shape   `json:"shape"`
-	Chunks    []Chunk `json:"chunks"`
-	RPCs      int     `json:"sync_rpcs"`
-	SentPods  int     `json:"rpc_pods_total"`
-	SentCtrs  int     `json:"rpc_ctrs_total"`
-	MoreDone  int     `json:"more_chunks_accepted"`
-	MaxChunk  int     `json:"largest_message_bytes"`
-	AbortedAt int     `json:"runtime_aborted_after_chunk,omitempty"`
-	Calls     int     `json:"handler_calls"`
-	GotPods   int     `json:"handler_pods"`
-	GotCtrs   int     `json:"handler_ctrs"`
-	StartErr  string  `json:"start_err,omitempty"`
-	SyncErr   string  `json:"sync_err,omitempty"`
-	Panic     string  `json:"panic,omitempty"`
-	ElapsedMs int64   `json:"sync_ms"`
-	Note      string  `json:"note,omitempty"`
+	Round    int     `json:"round"`
+	Shape    shape   `json:"shape"`
+	Chunks   []Chunk `json:"chunks"`
+	RPCs     int     `json:"sync_rpcs"`
+	SentPods int     `json:"rpc_pods_total"`
+	SentCtrs int     `json:"rpc_ctrs_total"`
+	MoreDone int     `json:"more_chunks_accepted"`
+	MaxChunk int     `json:"largest_message_bytes"`
+	// PredictedRejections: oversize rejections according to the harness's mirror of the
+	// sender's arithmetic (classification only)
+	PredictedRejections int    `json:"predicted_rejections"`
+	AbortedAt           int    `json:"runtime_aborted_after_chunk,omitempty"`
+	Calls               int    `json:"handler_calls"`
+	GotPods             int    `json:"handler_pods"`
+	GotCtrs             int    `json:"handler_ctrs"`
+	StartErr            string `json:"start_err,omitempty"`
+	SyncErr             string `json:"sync_err,omitempty"`
+	Panic               string `json:"panic,omitempty"`
+	ElapsedMs           int64  `json:"sync_ms"`
+	Note                string `json:"note,omitempty"`
 }
 
 type history struct {
@@ -782,10 +787,10 @@ type roundSizes struct{ pods, ctrs []int }
 func (r Round) validate() (roundSizes, error) {
 	var rs roundSizes
 	var err error
-	if rs.pods, err = r.Pods.sizes(maxPods); err != nil {
+	if rs.pods, err = r.Pods.sizes(hardMaxObjs); err != nil {
 		return rs, err
 	}
-	if rs.ctrs, err = r.Ctrs.sizes(maxCtrs); err != nil {
+	if rs.ctrs, err = r.Ctrs.sizes(hardMaxObjs); err != nil {
 		return rs, err
 	}
 	total := 0
@@ -936,6 +941,10 @@ func (se *session) runRound(idx int, c Round, rs roundSizes) (rr roundResult) {
 	if idx > 0 {
 		rr.classes = append(rr.classes, "re-registration")
 	}
+	// how many oversize rejections the sender's arithmetic needs for this state (mirror)
+	predRej, predMsgs, predGaveUp := mirrorSender(pods, ctrs)
+	rr.classes = append(rr.classes, rejectionBand(predRej))
+	hist.PredictedRejections = predRej
 	if sh.Class != "a" {
 		rr.classes = append(rr.classes, "split")
 	}
@@ -1253,6 +1262,13 @@ func (se *session) runRound(idx int, c Round, rs roundSizes) (rr roundResult) {
 	if delivered && nchunks > 1 {
 		rr.classes = append(rr.classes, "delivered-split")
 	}
+	if delivered && abortedAt == 0 {
+		if !predGaveUp && predMsgs == nchunks {
+			rr.classes = append(rr.classes, "mirror-agrees")
+		} else {
+			rr.classes = append(rr.classes, "mirror-differs")
+		}
+	}
 	return rr
 }
 
@@ -1345,5 +1361,6 @@ func TestExh_C09(t *testing.T) {
 		}
 	}
 	r.SetExtra("sweep_cases", n)
+	runHeadTailSweep(t, r)
 	runBoundarySweep(t, r)
 }
